@@ -47,7 +47,7 @@ func VerifyFunction(p *Program, c *Contract) (res *FuncResult) {
 	}
 	e.top = fn
 	e.topContract = c
-	res.Func = funcDisplayName(fn)
+	res.Func = e.topName()
 	e.verifyTop(fn, c, res)
 	res.Obls = e.Obls
 	res.Lines = e.lines
@@ -134,7 +134,7 @@ func (e *Engine) verifyTop(fn *ssa.Function, c *Contract, res *FuncResult) {
 		e.assume(st, g)
 	}
 	// vacuity: the pre-condition must be satisfiable
-	res.Covers = append(res.Covers, &Obligation{Name: funcDisplayName(fn) + "#cover:requires", Kind: "cover", PC: "true", Goal: "false", At: len(e.lines)})
+	res.Covers = append(res.Covers, &Obligation{Name: e.topName() + "#cover:requires", Kind: "cover", PC: "true", Goal: "false", At: len(e.lines)})
 	fr.entry = st.clone()
 	// footprint (evaluated at entry)
 	var fp footprint
@@ -182,14 +182,19 @@ func (e *Engine) verifyTop(fn *ssa.Function, c *Contract, res *FuncResult) {
 		e.note("no reachable return in %s", fn.Name())
 		return
 	}
-	res.Covers = append(res.Covers, &Obligation{Name: funcDisplayName(fn) + "#cover:exit", Kind: "cover", PC: out.pc.S, Goal: "false", At: len(e.lines)})
+	res.Covers = append(res.Covers, &Obligation{Name: e.topName() + "#cover:exit", Kind: "cover", PC: out.pc.S, Goal: "false", At: len(e.lines)})
 	full := append(append([]Val{}, args...), results...)
-	for _, cl := range c.Clauses {
-		if cl.Kind != "ensures" {
-			continue
+	if len(rets) <= 1 {
+		// with several return sites every post-condition has been checked at each of them;
+		// the merged exit state adds nothing (it used to be re-checked assuming the per-site
+		// results, which made it the largest and least stable query of a function)
+		for _, cl := range c.Clauses {
+			if cl.Kind != "ensures" {
+				continue
+			}
+			g := e.evalSpec(fr, e.clauseFunc(c, cl), full, out, fr.entry)
+			e.oblige(out, "post", clauseLabel(cl), g, fn.Pos())
 		}
-		g := e.evalSpec(fr, e.clauseFunc(c, cl), full, out, fr.entry)
-		e.oblige(out, "post", clauseLabel(cl), g, fn.Pos())
 	}
 	e.frameCheck(fr, out, &fp)
 }
